@@ -162,8 +162,10 @@ class Rec:
         elif act[0] == "raise":
             raise StateError(name)
         elif act[0] == "nsn2":
+            # two to four next_state_now() calls in one body
             self.next_state_now(ref)
-            self.next_state_now(getattr(type(self), act[2]) if self._refs_as_objects else act[2])
+            for other in act[2:]:
+                self.next_state_now(getattr(type(self), other) if self._refs_as_objects else other)
         elif act[0] == "dnsn":
             self.done()
             self.next_state_now(ref)
@@ -484,17 +486,20 @@ class SpecSM:
                 # (plus one more for each explicit next_state_now())": both targets run, under the request of the
                 # iteration in progress (unless the machine was stopped in between)
                 self.bump("act:two-next_state_now")
+                if len(act) > 3:
+                    self.bump("act:three-or-more-next_state_now")
                 ctx["two-nsn"] = True
                 self._enter(act[1])
                 self.execute(now, now_d, ev, depth + 1)
                 if ctx["requested"] and self.executing:
                     self.requested = True
-                if not self.executing:
-                    self.left_selected = act[2]  # the machine stopped in between: what follows is a left-over selection
-                self._enter(act[2])
-                self.execute(now, now_d, ev, depth + 1)
-                if ctx["requested"] and self.executing:
-                    self.requested = True
+                for other in act[2:]:
+                    if not self.executing:
+                        self.left_selected = other  # the machine stopped in between: what follows is a left-over selection
+                    self._enter(other)
+                    self.execute(now, now_d, ev, depth + 1)
+                    if ctx["requested"] and self.executing:
+                        self.requested = True
             elif act and act[0] == "dnsn":
                 self.bump("act:done-then-next_state_now")
                 if not ev.take_done():
@@ -1277,7 +1282,7 @@ def decode_sm_case(code, profile):
         if plain2:
             for k, sd in enumerate(case["states"]):
                 if sd["kind"] != "default":
-                    sd["script"] = [(["nsn2", a[1], plain2[(k + j + 1) % len(plain2)]] if a[0] == "nsn" and j % 2 == 0 else a) for j, a in enumerate(sd["script"])]
+                    sd["script"] = [(["nsn2", a[1]] + [plain2[(k + j + 1 + x) % len(plain2)] for x in range(1 + (k + j) % 3)] if a[0] == "nsn" and j % 2 == 0 else a) for j, a in enumerate(sd["script"])]
     if t0_c == 5 and cname_c == 0:
         # done() followed by next_state() in one state body leaves a selection behind on a stopped machine
         mf_eff = {sd["n"]: bool(sd.get("mf")) for sd in case["states"]}
@@ -1326,7 +1331,7 @@ def decode_auto_case(code):
     if t0_c == 2:
         for k, sd in enumerate(case["states"]):
             if sd["kind"] != "default":
-                sd["script"] = [(["nsn2", a[1], regular[(k + j + 1) % len(regular)]] if a[0] == "nsn" and j % 2 == 0 else a) for j, a in enumerate(sd["script"])]
+                sd["script"] = [(["nsn2", a[1]] + [regular[(k + j + 1 + x) % len(regular)] for x in range(1 + (k + j) % 3)] if a[0] == "nsn" and j % 2 == 0 else a) for j, a in enumerate(sd["script"])]
     timed = [sd["n"] for sd in case["states"] if sd["kind"] == "timed"]
     case["auto"] = True
     hist = []
